@@ -141,6 +141,7 @@ def _frames(s: Stream, p, nsteps: int, rev: bool, stop_extra: bool) -> dict:
             cuts = sorted(s.sample(range(1, n), nfiles - 1))
             split = [b - a for a, b in zip([0, *cuts], [*cuts, n])]
         fr["split"] = split
+    fr["time_units"] = s.wpick([("epoch", 3), ("y2000", 1), ("hours", 1)])
     if s.chance(p["p_packed"]):
         fr["storage"] = "i2"
         # each component packed to its own range, as ROMS post-processing does
@@ -203,6 +204,9 @@ def _flow(s: Stream, p, sc, nframes: int) -> dict:
         fl["w"] = {"w0": 0.0}  # filled by the caller who knows the depth
     if scal:
         fl["scalars"] = scal
+        jm_, im_ = truth.dims(sc)
+        if "temp" in scal and nframes * N * jm_ * im_ < 32000 and s.chance(0.35):
+            sc["frames"]["scalar_packed"] = True     # int16 with scale_factor and add_offset
     return fl
 
 
@@ -291,10 +295,17 @@ def _release(s: Stream, p, sc) -> dict:
         r0["step"] = times[0] if cont else 0
         r0["mult"] = max(1, r0["mult"])
     rel["header"] = s.chance(p["p_header"])
+    if s.chance(0.4):
+        rel["time_styles"] = [s.pick(["T", "space", "short"]) for _ in range(3)]
     if not s.chance(0.85):
         # no mult column: only legal if every row has mult 1
         if all(r["mult"] == 1 for r in rel["rows"]):
             rel["mult_column"] = False
+    if s.chance(0.3):
+        ncols = (1 if rel.get("mult_column", True) else 0) + 4 + len(rel["extra"])
+        order = list(range(ncols))
+        s.shuffle(order)
+        rel["col_order"] = order
     return rel
 
 
@@ -406,6 +417,8 @@ def gen_scenario(seed: int, p: dict | None = None) -> dict:
     v["theta_b"] = round(s.uniform(0.05, 1.0), 2) if v["Vstretching"] == 1 else round(s.uniform(0.1, 3.5), 2)
     v["hc"] = round(s.uniform(1.0, 20.0), 1)
     v["source"] = "vinfo" if s.chance(p["p_vinfo"]) else "file"
+    if v["Vtransform"] == 1 and v["source"] == "file" and s.chance(0.3):
+        v["write_vtransform"] = False      # old grid files carry no Vtransform variable
     g["vert"] = v
     sc["grid"] = g
     # Vtransform 1 requires hc <= hmin
